@@ -205,7 +205,7 @@ def tlc(module, cfg_text, name, workers=None, trace=None, timeout=1800, simulate
         env.setdefault("JAVA_TOOL_OPTIONS", "-Xss512m")
         w = workers or TLC_WORKERS
     cmd = ["timeout", str(timeout), "tlc", "-workers", str(w), "-config", cfg, "-metadir", meta, "-cleanup",
-           "-noGenerateSpecTE"]
+           "-noGenerateSpecTE", "-checkpoint", "0"]
     if trace is None:
         cmd += ["-coverage", "1"]
     if simulate:
@@ -267,7 +267,8 @@ SELFTEST_FLIP = {
     "ContentPackTrace": ("Get", lambda e: e.update(cid=e["cid"] + 1) if e["res"] == "match" else None),
     "EntryStoreTrace": ("Index", lambda e: e.update(count=e["count"] + 1)),
     "EntryOrderTrace": [("Find", lambda e: e.update(res=e["res"] + 1) if e["res"] >= 0 else None),
-                        ("Handles", lambda e: e.update(pos=[e["pos"][1], e["pos"][0]] + e["pos"][2:]) if len(e["pos"]) >= 2 else None)],
+                        ("Handles", lambda e: e.update(pos=[e["pos"][1], e["pos"][0]] + e["pos"][2:], inv=[e["inv"][1], e["inv"][0]] + e["inv"][2:])
+                         if len(e["pos"]) >= 2 and e["pos"][0] in (0, 1) and e["pos"][1] in (0, 1) else None)],
     "ClusterPipelineTrace": ("Seg", lambda e: e.update(tail=e["tail"] + 1)),
     "PackagingTrace": ("DumpDiff", lambda e: e.update(n=e["n"] + 1)),
     "ViewsTrace": ("Root", lambda e: e.update(size=e["size"] + 1)),
